@@ -1442,7 +1442,8 @@ export class AllOfRuntype extends BaseRuntype {
 const MERGEABLE_OBJECT_SCHEMA_KEYS = new Set(["type", "properties", "required", "additionalProperties"]);
 
 function tryMergeAllOfObjectSchemas(schemas: JSONSchema7[]): JSONSchema7 | null {
-  const properties: Record<string, JSONSchema7Definition> = {};
+  // keyed by property names, which may be `constructor`, `toString`, `__proto__`: no prototype
+  const properties: Record<string, JSONSchema7Definition> = emptyDict();
   const required = new Set<string>();
 
   for (const schema of schemas) {
